@@ -151,3 +151,13 @@ package base
 //@ func (SignFact).Fact
 //@   pure
 //@   ensures r0 != nil
+
+// C38: the two duplicate checks of a proposal compare the right things: the
+// first key is the operation hash, the second the fact hash (IsDuplicatedSlice,
+// which compares the keys, is not under contract)
+//@ func IsValidProposalFact$2
+//@   prop C38
+//@   ensures r0 && (hs[0] != nil ==> r1 == hs[0].String()) && (hs[0] == nil ==> r1 == "")
+//@ func IsValidProposalFact$3
+//@   prop C38
+//@   ensures r0 && (hs[1] != nil ==> r1 == hs[1].String()) && (hs[1] == nil ==> r1 == "")
